@@ -1039,6 +1039,9 @@ impl World {
                 }
             }
             Some(DatagramEvent::NewConnection(incoming)) => {
+                if d.data.len() < 1200 {
+                    self.led.violate("C07", format!("endpoint {ei}: connection state (an Incoming) created for an Initial carried in a {}-byte datagram", d.data.len()));
+                }
                 if !d.forged {
                     self.counted.insert(d.gid, (true, self.now));
                 }
@@ -1056,7 +1059,8 @@ impl World {
                     tr.push(format!("{} response {ei} dst={} size={} {}", self.now, t.destination, t.size, desc));
                 }
                 let min_iv = self.eps[ei].spec.reset_interval_ms * 1_000_000;
-                self.mon.on_response(ei, &d, &t, &buf[..t.size], self.now, min_iv, &mut self.led);
+                let is_server_ep = self.eps[ei].spec.server.is_some();
+                self.mon.on_response(ei, &d, &t, &buf[..t.size], self.now, min_iv, is_server_ep, &mut self.led);
                 let b = buf[..t.size].to_vec();
                 self.emit_transmit(ei, None, &t, &b);
             }
